@@ -273,6 +273,59 @@ theorem nextWriter_is_source {σ : Type} (ops : Ops σ) (s : Sh σ) (tx : Int) (
           obtain ⟨c', tx', ok⟩ := x
           cases ok <;> c02_close
 
+/-- the writer section of `Left` in the concurrent model is the writer section of the source: the re-check of who
+shifted, the panic if the head still had a token, `startNext` with the head's finish time, then the retry -/
+theorem leftWriter_is_source {σ : Type} (ops : Ops σ) (s : Sh σ) (seen : Nat) (now : Int) :
+    compositeSchedule_Left_writer ops s seen now = leftWriter ops s seen now := by
+  unfold compositeSchedule_Left_writer leftWriter cChildNext cStartNext cLen
+  by_cases he : s.cs.length = seen
+  · have h1 : ((s.cs.length : Nat) : Int) = (seen : Int) := by omega
+    have h2 : (seen : Int) = ((s.cs.length : Nat) : Int) := by omega
+    have h3 : (s.cs.length == seen) = true := by simp [he]
+    simp only [h1, h3, decide_true, if_true]
+    cases hcs : s.cs with
+    | nil => first | rfl | c02_close
+    | cons c rest =>
+      simp only
+      cases ops.next c now with
+      | error e => first | rfl | c02_close
+      | ok x =>
+        obtain ⟨c', tx', ok⟩ := x
+        cases ok with
+        | true => first | rfl | c02_close
+        | false =>
+          simp only [Bool.false_eq_true, if_false]
+          cases startNext ops { s with cs := c' :: rest } tx' <;> first | rfl | c02_close
+  · have h1 : ¬ ((s.cs.length : Nat) : Int) = (seen : Int) := by omega
+    have h2 : ¬ (seen : Int) = ((s.cs.length : Nat) : Int) := by omega
+    have h3 : (s.cs.length == seen) = false := by simp [he]
+    simp only [h1, h2, h3, decide_false, if_false, Bool.false_eq_true]
+    try (first | rfl | c02_close)
+
+/-- `startNext` of the source — drop the head of `scheds` and of `leftAfter`, start the new head with the time given, in
+whichever order the source does it — is the model's `startNext` (as long as `leftAfter` is not empty: it is as long as
+`scheds`) -/
+theorem startNext_is_source {σ : Type} (ops : Ops σ) (s : Sh σ) (t : Int) (hla : s.la ≠ []) :
+    compositeSchedule_startNext ops s t = startNext ops s t := by
+  unfold compositeSchedule_startNext startNext eShiftScheds eShiftLeftAfter eStartAt
+  obtain ⟨cs, la, st⟩ := s
+  cases la with
+  | nil => exact absurd rfl hla
+  | cons l0 lr =>
+    cases cs with
+    | nil => rfl
+    | cons c r =>
+      cases r with
+      | nil => rfl
+      | cons h tl =>
+        simp only [bind, Except.bind, pure, Except.pure, List.getElem?_cons_zero, List.getElem?_cons_succ, List.set_cons_zero,
+          List.set_cons_succ, List.tail_cons]
+        cases ops.start h t <;> rfl
+
+/-- `Start` sets the started flag and starts the head with the time it was given, under the write lock — `compStart` -/
+theorem start_is_source :
+    compositeSchedule_Start = ["defer s.rwMu.Unlock()", "s.rwMu.Lock()", "s.scheds[0].Start(t)", "s.started.Store(true)"] := by decide
+
 /-! ### machine integers: the suffix sums and `Left` do not wrap -/
 
 /-- a 64-bit machine integer holds every value of its range unchanged -/
